@@ -81,7 +81,7 @@ func runC04(r *engine.Run) {
 	domCancel(r)
 	whoLiveDelete(r, "WHO-livedelete")
 	domSameKey(r, "DOM-samekey")
-	errGuard(r, "ERR-guard", "ERR-dropped", funcsOfPkg(r, pkgUtil), 40)
+	errGuard(r, "ERR-guard", "ERR-dropped", funcsOfPkg(r, pkgUtil), 20)
 	domRecorded(r, "DOM-recorded")
 }
 
@@ -196,6 +196,17 @@ func whoCollect(r *engine.Run) {
 		}
 		if !put.Block().Dominates(ret.Block()) {
 			r.Fail(rule, o.next(fn(f)+"|success return"), r.P.Pos(ret.Pos()), "insertNode returns success on a path that did not store the new node")
+			continue
+		}
+		// the return follows an AddChange in its own block
+		sameBlock := false
+		for _, a := range adds {
+			if a.Block() == ret.Block() && engine.InstrDominates(a, ret) {
+				sameBlock = true
+			}
+		}
+		if sameBlock {
+			r.OK(rule, o.next(fn(f)+"|success return"), r.P.Pos(ret.Pos()), "the success return follows AddChange in the same block")
 			continue
 		}
 		paths, ok := engine.PathFactsAvoid(f, ret.Block(), avoid, 4096)
